@@ -16,6 +16,16 @@ CHECKS = {
             'Trusts the hook to report the lexer\'s own positions (it copies Lex.pos); columns counted in characters; '
             'synthetic tokens (NL/Indent/Dedent/Eof) are only required to lie inside the text.',
             'DESIGN.md section 4, C18'),
+    'C10': ('exploration',
+            'runtime monitor on the real printer: Core trees enumerated exhaustively (3 levels, ~98k trees) and randomly (depth 4-7), printed by Display for Core, parsed back by CPython ast and compared with the tree each denotes; end-to-end typed Mamba expressions through the whole pipeline',
+            'Exhaustive small scope: every tree of up to two operator levels above the leaves over 23 binary, 4 unary operators, sqrt, isinstance, ternary, lambda, call, index, attribute and E-notation is printed by the real code and re-parsed by CPython; random deeper trees; and Mamba source expressions (fully parenthesised and minimally parenthesised per the Mamba grammar) transpiled and compared as Python ASTs.',
+            'Trusts CPython ast.parse as the definition of grouping; and/or flattening of left-nested same-operator BoolOps normalised on both sides; Appendix B of DESIGN.md as reading of the Mamba grammar for the minimal-parentheses spelling.',
+            'DESIGN.md section 4, C10'),
+    'C20': ('exploration',
+            'runtime monitor on the real Name::is_superset_of / union / == / Hash against a real Context: complete pair matrix over a ~360-type universe, all triples via the matrix, union laws, repetition with fresh hash seeds, end-to-end `def x: U := e` cross-check',
+            'Exhaustive small scope: the order axioms (reflexive, transitive, Any top, nullable rules, class ancestry, union laws, insertion-order independence) are evaluated on the real public API for every pair and every triple of the universe; the matrices are recomputed several times with fresh Contexts and hash seeds; 600+ (T, U) pairs are cross-checked through the whole pipeline.',
+            'The universe is finite and built through public constructors; function types are judged for reflexivity only, as the property states.',
+            'DESIGN.md section 4, C20'),
 }
 
 NOT_YET = 'monitor not built yet in this revision (construction order: DESIGN.md section 9); not claimed rather than claimed weakly'
